@@ -105,8 +105,33 @@ def table_violations(ctx, t):
         ctx.violation(f"identity-eq:{k}", f"a field-for-field identical new {k} object is != the original",
                       {"kind": k})
         n += 1
+    # length mutants that leave no valid node (rank / operand count no longer fit) or touch two rows are not in the
+    # tables; a comparer that zips without checking the length still must not call them equal (either direction)
+    internal = set(t.internal)
+    nlen = 0
+    for p in t.probes:
+        if not (isinstance(p.variant, str) and p.variant.startswith("len:")):
+            continue
+        nlen += 1
+        if not p.compound:
+            continue        # judged through the table rows above
+        rows = p.row.split("+")
+        if all(eqtable._is_traceback(r) or (p.kind, r) in internal for r in rows):
+            continue
+        if p.eq is True or p.eq_rev is True:
+            ctx.violation(f"eq-ignores-length:{p.kind}.{p.row}",
+                          f"two {p.kind} nodes whose `{p.row}` differ in LENGTH compare equal "
+                          f"(a==b {p.eq}, b==a {p.eq_rev}); probe: {p.desc}", p.replay())
+            n += 1
+    ctx.coverage["length_probes"] = {
+        "total": nlen, "in_table_rows": sum(1 for p in t.probes if isinstance(p.variant, str)
+                                            and p.variant.startswith("len:") and not p.compound),
+        "comparison_raises_on_invalid_node": sorted({f"{p.kind}.{p.row}" for p in t.probes
+                                                     if p.invalid and isinstance(p.eq, str)})}
     # per-probe consistency of the operators themselves
     for p in t.probes:
+        if p.invalid:
+            continue
         vals = [p.eq, p.eq_rev, p.ne, p.hash_eq, p.in_set, p.in_dict]
         if any(isinstance(v, str) for v in vals):
             ctx.violation(f"eq-raises:{p.kind}.{p.row}", f"comparing/hashing raised: {vals}; {p.desc}", p.replay())
